@@ -358,7 +358,11 @@ def mk_frames(spec):
         elif kind == "table":  # indexed by security name
             df = pd.DataFrame(f["cols"], index=f["index"])
             for c in f.get("date_cols", []):
-                df[c] = pd.to_datetime(df[c])
+                if f.get("date_dtype") == "object":
+                    # the way such a table is often put together: an empty frame filled cell by cell with Timestamps (object dtype)
+                    df[c] = pd.Series([pd.Timestamp(x) for x in df[c]], index=df.index, dtype=object)
+                else:
+                    df[c] = pd.to_datetime(df[c])
             frames[name] = df
         elif kind == "dictframes":
             frames[name] = {k: mk_frame(spec["dates"], v) for k, v in f["frames"].items()}
